@@ -451,8 +451,8 @@ type finding struct {
 	key, what string
 }
 
+const keyDiscardSharedNode = "C13:badger-finalize-discarding-a-candidate-deletes-node-shared-with-finalized-root"
 const keyEmbeddedLeaf = "C13:pathbadger-unservable-log-after-same-value-insert-of-embedded-leaf"
-const keyTwoHopReversed = "C13:badger-two-hop-write-log-served-newest-hop-first"
 
 type runResult struct {
 	findings   []finding
@@ -472,8 +472,16 @@ func runScenario(sc Scenario) (res runResult) {
 	res.hist = map[string]int{}
 	defer func() {
 		if e := recover(); e != nil {
-			res.violations = append(res.violations, fmt.Sprintf("implementation panicked: %v", e))
+			what := fmt.Sprintf("implementation panicked: %v", e)
 			res.panicked = true
+			// recognised defect outside C13's statement (node database, C06/C07 territory): after
+			// badger discards a losing candidate, a node that candidate re-created with the same
+			// hash as a node of the finalized root is gone, and the finalized root is unreadable
+			if strings.Contains(what, "mkvs: node not found in node db") && sc.Backend == "badger" {
+				res.findings = append(res.findings, finding{keyDiscardSharedNode, what})
+				return
+			}
+			res.violations = append(res.violations, what)
 		}
 	}()
 	viol := func(f string, a ...any) { res.violations = append(res.violations, fmt.Sprintf(f, a...)) }
@@ -572,19 +580,9 @@ func runScenario(sc Scenario) (res runResult) {
 			}
 			if got := applyRef(p.oldKV, q.log); !kvEqual(got, p.newKV) {
 				what := fmt.Sprintf("pair %d (%s): served write log applied to the start contents does not give the end contents", p.idx, fstate)
-				// recognised defect: badger answers a pair whose own log was not stored (the root
-				// already existed) with the two-hop path through the other parent, and streams the
-				// hops newest first (badger.go:419-437 collects the log keys walking from the end
-				// root and replays them from index 0)
-				rev := append([]entry{}, q.raw...)
-				for i, j := 0, len(rev)-1; i < j; i, j = i+1, j-1 {
-					rev[i], rev[j] = rev[j], rev[i]
-				}
-				if sc.Backend == "badger" && p.sOnly && kvEqual(applyRef(p.oldKV, rev), p.newKV) {
-					res.findings = append(res.findings, finding{keyTwoHopReversed, what})
-				} else {
-					viol("%s", what)
-				}
+				// (regression: badger once streamed a two-hop answer newest hop first, fixed in
+				// /repo d35310a; a wrong order is a violation)
+				viol("%s", what)
 			} else if !p.sOnly && !logEqual(q.log, p.committed) {
 				viol("pair %d (%s): the served write log differs from the one Commit returned", p.idx, fstate)
 			}
@@ -910,6 +908,43 @@ func runScenario(sc Scenario) (res runResult) {
 				}
 			}
 		}
+		// multi-hop answers (badger.go:363-372): start of the first hop -> end of the second
+		twoHop := func(phase string) {
+			for i, p := range cands {
+				j := parentOf[i]
+				if j < 0 || parentOf[j] >= 0 || p.skip || cands[j].skip || sc.Backend != "badger" {
+					continue
+				}
+				if phase == "finalized" && !finalizedHash[p.end.hash] {
+					continue
+				}
+				first := cands[j]
+				q := query(mkRoot(first.start.ver, first.start.hash), mkRoot(p.end.ver, p.end.hash))
+				res.hist["twohop:"+phase+":"+q.status]++
+				switch q.status {
+				case "served":
+					overlap := false
+					seen := map[string]bool{}
+					for _, e := range q.raw {
+						if seen[string(e.k)] {
+							overlap = true
+						}
+						seen[string(e.k)] = true
+					}
+					if overlap {
+						res.hist["twohop:hops-write-the-same-key"]++
+					}
+					if got := applyRef(first.oldKV, q.raw); !kvEqual(got, p.newKV) {
+						viol("pair %d+%d (%s): the two-hop write log applied to the start contents does not give the end contents", first.idx, p.idx, phase)
+					}
+				case "error":
+					viol("pair %d+%d (%s): two-hop write log: %v", first.idx, p.idx, phase, q.err)
+				}
+			}
+		}
+		if ver.Fork {
+			twoHop("pending")
+		}
 		fin := []node.Root{mkRoot(cands[pick].end.ver, cands[pick].end.hash)}
 		if err := ndb1.Finalize(fin); err != nil {
 			panic(fmt.Errorf("finalize db1: %w", err))
@@ -948,6 +983,7 @@ func runScenario(sc Scenario) (res runResult) {
 				}
 			}
 		}
+		twoHop("finalized")
 		for _, p := range cands {
 			if p.skip || !p.emit || p.sOnly {
 				continue
@@ -1212,6 +1248,31 @@ func genScenario(r *prng.R, idx int, count func(string)) Scenario {
 	return sc
 }
 
+// regressionScenarios are always part of the stream: inputs on which the implementation once
+// violated the property (see known_findings.json).
+func regressionScenarios() []Scenario {
+	ins := func(k, v string) Op { return Op{K: "ins", Key: hx([]byte(k)), Val: hx([]byte(v))} }
+	var out []Scenario
+	// badger: the same root reached directly and through a two-hop path whose hops write the
+	// same key, child first / direct first, every candidate finalized in turn
+	for pick := 0; pick < 3; pick++ {
+		out = append(out,
+			Scenario{Backend: "badger", Backend2: "badger", Type: "state", Seed: 1, Versions: []Version{
+				{Fork: true, Pick: pick, Parents: []int{0, 1, 0}, Batches: [][]Op{{ins("ab", "x")}, {ins("ab", "")}, {ins("ab", "")}}},
+				{Batches: [][]Op{{ins("c", "y")}}}}},
+			Scenario{Backend: "badger", Backend2: "badger", Type: "state", Seed: 2, Versions: []Version{
+				{Batches: [][]Op{{ins("ab", "q"), ins("b", "y")}}},
+				{Fork: true, Pick: pick, Parents: []int{0, 0, 1}, Batches: [][]Op{{ins("ab", "x"), ins("abc", "z")}, {ins("ab", "x"), ins("abc", "z"), ins("ab", ""), {K: "rem", Key: hx([]byte("abc"))}}, {ins("ab", ""), {K: "rem", Key: hx([]byte("abc"))}}}}}})
+	}
+	// badger IO: empty -> i -> io inside one version with overlapping keys
+	out = append(out, Scenario{Backend: "badger", Backend2: "badger", Type: "io", Seed: 3, Versions: []Version{
+		{Batches: [][]Op{{ins("a", "1"), ins("ab", "2")}, {ins("a", "3"), {K: "rem", Key: hx([]byte("ab"))}, ins("b", "")}}}}})
+	// pathbadger: re-insertion of the unchanged value of an embedded leaf (known finding)
+	out = append(out, Scenario{Backend: "pathbadger", Backend2: "pathbadger", Type: "state", Seed: 4, Versions: []Version{
+		{Batches: [][]Op{{ins("c", "")}}}, {Batches: [][]Op{{ins("ca", "")}}}, {Batches: [][]Op{{ins("c", "")}}}}})
+	return out
+}
+
 func violKind(s string) string {
 	var sb strings.Builder
 	for _, ch := range s {
@@ -1354,6 +1415,9 @@ func main() {
 		}
 		scs = []Scenario{sc}
 	} else {
+		if *mode != "pblog" {
+			scs = append(scs, regressionScenarios()...)
+		}
 		r := prng.New(*seed)
 		for i := 0; i < *n; i++ {
 			sc := genScenario(r.Fork(), i, func(k string) { sum.Count("pattern", k) })
@@ -1415,7 +1479,7 @@ func main() {
 			if len(sum.Violations) >= 20 {
 				continue
 			}
-			if !res.panicked && shrunk < 3 {
+			if shrunk < 3 {
 				shrunk++
 				small = shrink(sc, kind)
 			}
